@@ -20,9 +20,22 @@ func checkC01(c *Ctx) {
 	m.checkDoList()
 	m.checkKeySites()
 	m.checkConfinement()
-	c.floor("T-TABLE(doUpdate)", 20, "doUpdate has 9 paths covering 48 abstract rows")
-	c.floor("T-TABLE(doSync.item)", 20, "doSync item step")
+	c.floor("T-TABLE(doUpdate)", 8, "doUpdate has 9 paths")
+	c.floor("T-TABLE(doSync.item)", 8, "doSync item step has 9 in-loop paths")
 	c.floor("T-TABLE(doSync.sweep)", 3, "sweep: exit, in set, not in set")
 	c.floor("T-TABLE(_cache.run)", 7, "6 arms, get arm twice")
 	c.floor("T-CONFINE(_cache)", 8, "2 fields x accessor functions + call sites")
+}
+
+func init() {
+	props = append(props, propSpec{ID: "C06", Level: "other", Run: checkC06,
+		Explanation: "Transition table of filterSubscription.run extracted from SSA (4 select arms; state P/pending/ready/D; inputs isNew/ok/error checks) compared with the reference table on every abstract input; constructor/accessor flows; cache step function as in C01.",
+		Assumptions: []string{"drained-state equality is argued by induction over the per-step table; the interleaving-level statement itself is not decided"}})
+}
+
+func checkC06(c *Ctx) {
+	checkFilterSubscriptionTable(c)
+	checkFilterSubscriptionFlows(c)
+	checkFSubDistribute(c)
+	c.floor("T-TABLE(filterSubscription.run)", 20, "23 iteration paths + initial state")
 }
